@@ -714,7 +714,7 @@ func streamJSON(w *W, rng *rand.Rand, tier string, which string) {
 		}
 	}
 	w.hist["outside-model-domain-skipped"] = skipped
-	if which == "C06" || which == "C08" {
+	if which == "C06" || which == "C08" || which == "C17p" {
 		streamExotic(w, rng, n/3)
 	}
 	// texts that are not one JSON object
